@@ -334,7 +334,17 @@ fn branch_doc(trivia: &Trivia, branch: &Branch, multi_branch: bool) -> Doc {
             // `~>` lines — but not when it carries a comment or is itself a breaking pipeline (which
             // forces a break; flattening would comment out / collapse the rest of the line).
             if pretty::forces_break(&condition) {
-                let content = pretty::concat(vec![condition, pretty::text(" => "), body]);
+                // A trailing comment of the guard is deferred to the end of its line, which must
+                // come before the `=>`: the consequence may break where no comment is allowed (at a
+                // `~>`, after the `=` of a binding, after an opening `"""`), and after the
+                // consequence the comment would trail that instead.
+                let last = branch.condition.chains.last();
+                let arrow = if last.is_some_and(|chain| trivia.has_trailing(chain.span)) {
+                    pretty::concat(vec![pretty::hardline(), pretty::text("=> ")])
+                } else {
+                    pretty::text(" => ")
+                };
+                let content = pretty::concat(vec![condition, arrow, body]);
                 // A single-chain `~>` guard indents its continuations under the head (past the `| `),
                 // *and* the consequence that follows the last one on the same line — so the whole
                 // `cond => consequence` is nested together, keeping the consequence aligned with the
@@ -1043,6 +1053,8 @@ fn scan_trivia(source: &str, interpolated: &[bool]) -> Vec<Scanned> {
     let mut escaped = false;
     let mut line_start = 0usize;
     let mut line_blank = true;
+    // The last two characters of code, to tell a comment that follows a `=>`.
+    let mut code_tail = (' ', ' ');
     while let Some((index, c)) = chars.next() {
         let triple_quote = c == '"' && source[index..].starts_with("\"\"\"");
         if let Some(string) = open.last_mut().filter(|string| string.hole_depth.is_none()) {
@@ -1087,7 +1099,9 @@ fn scan_trivia(source: &str, interpolated: &[bool]) -> Vec<Scanned> {
                 out.push(Scanned::Comment {
                     offset: index,
                     text: source[index..end].trim_end().to_string(),
-                    trailing: !line_blank,
+                    // A comment after a `=>` leads the consequence: there it stays where it is,
+                    // while as a trailing comment of the guard it would have to move before the `=>`.
+                    trailing: !line_blank && code_tail != ('=', '>'),
                     in_hole: !open.is_empty(),
                 });
                 line_blank = false;
@@ -1115,6 +1129,9 @@ fn scan_trivia(source: &str, interpolated: &[bool]) -> Vec<Scanned> {
             }
             c if !c.is_whitespace() => line_blank = false,
             _ => {}
+        }
+        if !c.is_whitespace() {
+            code_tail = (code_tail.1, c);
         }
     }
     out
